@@ -25,7 +25,7 @@ for u in U16:
     UNIT_DEFAULT_PROPS[u] = ["C04"]
 
 UNIT_DEFAULT_PROPS["U6b"] = ["C04"]
-UNIT_DEFAULT_PROPS["U5"] = ["C16"]
+UNIT_DEFAULT_PROPS["U5"] = ["C16", "C11"]
 UNIT_DEFAULT_PROPS["U12"] = ["C12"]
 UNIT_DEFAULT_PROPS["U11"] = ["C14"]
 UNIT_DEFAULT_PROPS["U13"] = ["C17"]
@@ -35,24 +35,29 @@ UNIT_DEFAULT_PROPS["U18"] = ["C09"]
 UNIT_DEFAULT_PROPS["U15"] = ["C02"]
 
 RUNTIME = ["U6", "U6b", "U7", "U8"] + U9
+# every unit of the run-time side: setup, queuer, stream poll, item closures, prologues, options builder
+RUNTIME_ALL = ["U6", "U6b", "U7", "U8"] + U9 + U16 + ["U17"]
 
-# property -> units run (all feature sets of the unit), units whose panic-freedom counts for it
+# property -> units run (all feature sets of the unit), units whose panic-freedom counts for it.
+# The unit lists are deliberately broad (everything the property's argument passes through): a failing obligation of
+# a listed unit that is tagged for OTHER properties makes this property UNDECIDED (foreign failure) and starts the
+# bounded native search, instead of being ignored.
 PROPS = {
-    "C01": {"units": ["U2", "U3", "U4", "U6", "U7", "U8", "U15"]},
-    "C02": {"units": ["U3", "U4", "U6", "U7", "U8", "U15"] + U9, "safety_units": ["U6", "U7"]},
-    "C03": {"units": ["U3", "U4", "U6", "U7", "U8", "U15"] + U9 + U16},
+    "C01": {"units": ["U2", "U3", "U4", "U15"] + RUNTIME_ALL},
+    "C02": {"units": ["U3", "U4", "U15"] + RUNTIME_ALL, "safety_units": ["U6", "U7"]},
+    "C03": {"units": ["U3", "U4", "U15"] + RUNTIME_ALL},
     "C14": {"units": ["U4", "U11"], "safety_units": ["U11"]},
-    "C15": {"units": ["U6", "U16b", "U16d", "U16f", "U16h"]},
-    "C04": {"units": ["U6b", "U7", "U15"] + U9 + U16, "safety_units": ["U6", "U6b", "U7"] + U9 + U16},
-    "C05": {"units": ["U6b", "U8"], "safety_units": ["U8"]},
-    "C06": {"units": ["U2", "U4", "U6", "U7", "U8", "U15"]},
+    "C15": {"units": ["U6", "U6b", "U16b", "U16d", "U16f", "U16h"]},
+    "C04": {"units": ["U3", "U4", "U15"] + RUNTIME_ALL, "safety_units": ["U6", "U6b", "U7"] + U9 + U16},
+    "C05": {"units": ["U3", "U4", "U6", "U6b", "U8"], "safety_units": ["U6", "U8"]},
+    "C06": {"units": ["U2", "U3", "U4", "U6", "U7", "U8", "U15"]},
     "C07": {"units": ["U9c", "U9d", "U9g", "U9h", "U16g", "U16h", "U10b", "U18"]},
     "C08": {"units": ["U10", "U10b", "U17"] + U9, "safety_units": ["U17"]},
     "C09": {"units": ["U10", "U10b", "U18"] + U9, "safety_units": ["U10", "U10b", "U18"]},
     "C20": {"units": ["U6", "U6b"]},
     "C10": {"units": U9},
-    "C11": {"units": ["U1", "U2", "U3", "U4"], "safety_units": ["U1", "U2", "U3", "U4"]},
-    "C12": {"units": ["U2", "U4", "U12"], "safety_units": ["U12"]},
+    "C11": {"units": ["U1", "U2", "U3", "U4", "U5"], "safety_units": ["U1", "U2", "U3", "U4", "U5"]},
+    "C12": {"units": ["U1", "U2", "U4", "U12"], "safety_units": ["U12"]},
     "C13": {"units": ["U1", "U4"]},
     "C16": {"units": ["U5"], "safety_units": ["U5"]},
     "C17": {"units": ["U13"], "safety_units": ["U13"]},
